@@ -221,9 +221,11 @@ func (b *assignmentBuilder) structFieldAndStructGettersAndFields(lhs bmodel.Node
 
 	if opts.Rule == gmodel.MatchRuleName {
 		bmodel.IterateStructFields(rhsStruct, handler)
-		if a != nil || err != nil || nested {
+		if a != nil || err != nil {
 			return a, err
 		}
+		// A nested struct that yielded nothing (no member the package can touch)
+		// falls through and is reported as no match rather than dropped silently.
 	}
 
 	logger.Warnf("%v: no assignment for %v [%v]", methodPosStr, lhsExpr, b.imports.TypeName(lhs.ExprType()))
